@@ -2,5 +2,6 @@ package agent
 
 const (
 	c19Steps   = 3
+	c04Payload = 3 // application bytes per write/datagram/echo: 1..c04Payload
 	c07Classes = 6
 )
